@@ -70,7 +70,7 @@ fn spec_for_inner(id: &str) -> Option<CheckSpec> {
       s.assumptions.push("loop campaign: what the loop does with the repeat requests is observed through its poll timeouts and chords (armed exactly when a Special mapping fired, cancelled by every acted-on event, untouched by ignored ones); a disagreement with RefLoop's timer state is reported as C09-loop-repeat-state".to_string()); s }
     "C19" => spec("C19", vec![Box::new(k("C19", Source::Random, Q, T).resets()), Box::new(k("C19", Source::Shipped, QS, TS).resets()), Box::new(b("C19", SourceB::Random, QB / 2, TB / 4))], false),
     "C10" => bspec("C10", vec![Box::new(b("C10", SourceB::Random, QB, TB)), Box::new(b("C10", SourceB::Shipped, QB / 4, TB / 4)), Box::new(b("C10", SourceB::Random, 100_000, 3_000_000).hybrid().tablet())]),
-    "C11" => bspec("C11", vec![Box::new(b("C11", SourceB::Random, QB, TB).special()), Box::new(b("C11", SourceB::Shipped, QB / 4, TB / 4))]),
+    "C11" => bspec("C11", vec![Box::new(b("C11", SourceB::Random, QB, TB).special()), Box::new(b("C11", SourceB::Shipped, QB / 4, TB / 4)), Box::new(b("C11", SourceB::Random, 150_000, 4_000_000).special().syspoll())]),
     "C12" => bspec("C12", vec![Box::new(b("C12", SourceB::Random, QB, TB).tablet()), Box::new(b("C12", SourceB::Shipped, QB / 4, TB / 4).tablet()), Box::new(b("C12", SourceB::Random, 100_000, 3_000_000).hybrid().tablet())]),
     "C20" => { let mut s = bspec("C20", vec![Box::new(b("C20", SourceB::Random, 30_000, 3_000_000).sweep()), Box::new(b("C20", SourceB::Shipped, 10_000, 600_000).sweep()), Box::new(b("C20", SourceB::Random, 6_000, 400_000).write_faults().tablet())]); s.level = "fault_enumeration"; s }
     "C18" => CheckSpec { property: "C18", level: "exploration", campaigns: vec![Box::new(WireCampaign::new(true, 0, 0)), Box::new(WireCampaign::lengths()), Box::new(WireCampaign::new(false, 400_000, 20_000_000)), Box::new(b("C18", SourceB::Random, 100_000, 3_000_000).hybrid().tablet())],
